@@ -87,13 +87,17 @@ def build_command(cmd, producers, params, name="Result", program=None):
     return cls(name, args, program=program, lineno=1)
 
 
-def run_command(cmd, arrays, params, fuzzy_inputs=None):
+def run_command(cmd, arrays, params, fuzzy_inputs=None, aliases=None):
     """Run one command on fresh stub producers through `.result` (cleaning included).
 
+    aliases: [[i, j], ...] -- input j is the very same producer (and array object) as input i: a result listed twice.
     Returns ("ok", result) or ("err", exception)."""
     if fuzzy_inputs is None:
         fuzzy_inputs = cmd in R.FUZZY_INPUT
     producers = [stub("In%d" % i, a, fuzzy_inputs) for i, a in enumerate(arrays)]
+    for i, j in aliases or []:
+        if i < len(producers) and j < len(producers):
+            producers[j] = producers[i]
     command = build_command(cmd, producers, params)
     try:
         return "ok", command.result
